@@ -22,7 +22,8 @@ def tu_text(Ks, KL, NS):
             L.append('extern "C" void cum_%s_%d(const double*, double* o){ constexpr auto B = smooth::polynomial_cumulative_basis<PolynomialBasis::%s, %d>(); putm(B,o,%d,%d);}' % (b, K, b, K, K + 1, K + 1))
         L.append('extern "C" void mder_%d(const double* i, double* o){ for (std::size_t p=0;p<=%d+1;++p){ auto U = smooth::monomial_derivative<%d,double>(i[0], p); putm(U,o,1,%d);} auto Us = smooth::monomial_derivatives<%d,%d,double>(i[0]); putm(Us,o,%d,%d);}'
                  % (K, K, K, K + 1, K, min(K, 3), min(K, 3) + 1, K + 1))
-        for P in range(0, min(K, 3) + 1):
+    for K in MINT_K:
+        for P in mint_orders(K):
             L.append('extern "C" void mint_%d_%d(const double*, double* o){ constexpr auto M = smooth::monomial_integral<%d,%d,double>(); putm(M,o,%d,%d);}' % (K, P, K, P, K + 1, K + 1))
     for K in range(1, 4):
         L.append('extern "C" void lagr_%d(const double* i, double* o){ std::array<double,%d> ts; for(int k=0;k<%d;++k) ts[k]=i[k]; auto B = smooth::lagrange_basis<%d>(ts); putm(B,o,%d,%d);}' % (K, K + 1, K + 1, K, K + 1, K + 1))
@@ -32,6 +33,14 @@ def tu_text(Ks, KL, NS):
     for N in NS:
         L.append('extern "C" void bis_%d(const double* i, double* o){ std::vector<double> r(i, i+%d); auto it = smooth::utils::binary_interval_search(r, i[%d]); o[0] = static_cast<double>(it - r.begin()); }' % (N, N, N))
     return "\n".join(L) + "\n"
+
+
+MINT_K = range(0, 11)   # monomial_integral is a constexpr table: every K <= 10 in both tiers
+
+
+def mint_orders(K):
+    """every derivative order 0..K+1 (the table is all zero for P = K+1): the factorial products reach 2^32 only for K >= 9, P >= 6"""
+    return range(0, K + 2)
 
 
 # ------------------------------------------------------------------------------------------------ exact definitions
@@ -225,7 +234,8 @@ def job_bases(Ks, KL, NS, tier):
             return out
         check.check_wrapper(res, h, "mder_%d" % K, [us], nout, orc, "monomial_derivative/K%d" % K, tol=1e-9, pid=PID,
                             sampler=lambda k: [random.Random(k).uniform(-2, 2)], nvalidate=3)
-        for P in range(0, min(K, 3) + 1):
+    for K in MINT_K:
+        for P in mint_orders(K):
             M, steps = get_matrix(h, "mint_%d_%d" % (K, P), K + 1, K + 1)
             res.paths += 1
             res.steps += steps
